@@ -124,3 +124,11 @@ func keys(m map[string]bool) string {
 	}
 	return s
 }
+
+// Locks returns the (cached) lock analysis of the loaded program.
+func (c *Ctx) Locks() *LockAnalysis {
+	if c.P.la == nil {
+		c.P.la = c.P.NewLockAnalysis(tcpWorkerAssume, tcpCutEdges)
+	}
+	return c.P.la
+}
